@@ -1,11 +1,13 @@
 //! Script generators, one family per property.  Every random choice comes from the `Rng`
 //! handed in (forked from the single VERIF_SEED stream).
 
-use crate::prng::Rng;
+use crate::{hex::hex, prng::Rng};
 
 pub fn generate(kind: &str, r: &mut Rng, i: u64) -> Vec<String> {
     match kind {
         "smoke" => smoke(r, i),
+        "link-exact" => link_exact(r, i),
+        "link-burst" => link_burst(r, i),
         _ => panic!("unknown generator {kind}"),
     }
 }
@@ -14,4 +16,306 @@ fn smoke(_r: &mut Rng, _i: u64) -> Vec<String> {
     let s = "cfg A chunk=8 buf=16 maxdata=32\ncfg B chunk=8 buf=16 maxdata=32\nstart\nconnect c1 A p\naccept a1 B p\nsettle\n\
              send s1 A p 000102030405060708090a0b0c0d0e0f1011\nrecv r1 B p\nsettle\nrecv r2 B p\nsettle\ndropall\nsettle\nend";
     s.lines().map(|l| l.to_string()).collect()
+}
+
+pub struct LinkCfg {
+    pub chunk: [u64; 2],
+    pub buf: [u64; 2],
+    pub maxdata: [u64; 2],
+    pub sq: [u64; 2],
+    pub tq: [u64; 2],
+    pub rq: [u64; 2],
+}
+
+/// Configuration pairs: small chunk sizes and receive buffers (including buffers that are not
+/// multiples of four and below eight), differing per endpoint, minimal queues.
+pub fn gen_cfg(r: &mut Rng) -> LinkCfg {
+    let mut c = LinkCfg { chunk: [0; 2], buf: [0; 2], maxdata: [0; 2], sq: [0; 2], tq: [0; 2], rq: [0; 2] };
+    for s in 0..2 {
+        c.chunk[s] = *r.pick(&[4u64, 5, 7, 8, 16, 32]);
+        c.buf[s] = *r.pick(&[4u64, 5, 6, 7, 8, 9, 11, 12, 13, 16, 24, 31, 64]);
+        c.maxdata[s] = *r.pick(&[6u64, 8, 16, 20, 40, 100]);
+        c.sq[s] = *r.pick(&[1u64, 1, 2, 16]);
+        c.tq[s] = *r.pick(&[1u64, 1, 2, 16]);
+        c.rq[s] = *r.pick(&[1u64, 1, 2, 16]);
+    }
+    c
+}
+
+pub fn cfg_lines(c: &LinkCfg) -> Vec<String> {
+    (0..2)
+        .map(|s| {
+            format!(
+                "cfg {} chunk={} buf={} maxdata={} sq={} tq={} rq={}",
+                if s == 0 { "A" } else { "B" },
+                c.chunk[s],
+                c.buf[s],
+                c.maxdata[s],
+                c.sq[s],
+                c.tq[s],
+                c.rq[s]
+            )
+        })
+        .collect()
+}
+
+/// Message sizes around the boundaries that matter on a link whose receiver advertised
+/// `chunk`/`buf` and has `maxdata`.
+pub fn msg_len(r: &mut Rng, chunk: u64, buf: u64, maxdata: u64) -> usize {
+    let edges = [
+        0,
+        1,
+        chunk - 1,
+        chunk,
+        chunk + 1,
+        buf.saturating_sub(1),
+        buf,
+        buf + 1,
+        maxdata - 1,
+        maxdata,
+        maxdata + 1,
+        2 * maxdata + 3,
+        2 * buf + 1,
+    ];
+    let n = match r.below(10) {
+        0..=5 => *r.pick(&edges),
+        6..=8 => r.below(3 * maxdata + 2),
+        _ => r.below(8),
+    };
+    n.min(400) as usize
+}
+
+fn payload(r: &mut Rng, n: usize) -> String {
+    hex(&r.bytes(n))
+}
+
+/// Exact mode: data flows in one direction, the opposite wire is delivered one item at a time
+/// with a settle after every stimulus, so the real run is a deterministic function of the
+/// script and must coincide with the model run step by step.
+fn link_exact(r: &mut Rng, _i: u64) -> Vec<String> {
+    let c = gen_cfg(r);
+    let s = r.below(2) as usize; // sending side
+    let (sn, rn) = if s == 0 { ("A", "B") } else { ("B", "A") };
+    let (chunk, buf, maxdata) = (c.chunk[1 - s], c.buf[1 - s], c.maxdata[1 - s]);
+    let mut l = vec!["mode exact".to_string()];
+    l.extend(cfg_lines(&c));
+    l.push("start".into());
+    l.push(format!("connect c0 {sn} p"));
+    l.push(format!("accept a0 {rn} p"));
+    l.push("settle".into());
+    // from here on the wire carrying credits back is stepped
+    l.push(format!("release {rn} 0"));
+    let nops = r.range(3, 12);
+    let mut k = 0;
+    let mut recvs = 0;
+    let mut sends = 0;
+    let mut pending_send: Option<String> = None;
+    for _ in 0..nops {
+        k += 1;
+        match r.below(10) {
+            // sender operations (only when no send call can be pending)
+            0..=5 => {
+                if let Some(p) = pending_send.take() {
+                    // either let the receiver make room, or cancel the pending call
+                    if r.chance(1, 3) {
+                        l.push(format!("cancel {p}"));
+                        l.push("settle".into());
+                    } else {
+                        for _ in 0..6 {
+                            recvs += 1;
+                            l.push(format!("recvmsg r{recvs} {rn} p"));
+                            l.push("settle".into());
+                            l.push(format!("flushstep {rn}"));
+                        }
+                        // it may still be pending (large message, small buffer): cancel to keep the script simple
+                        l.push(format!("cancel {p}"));
+                        l.push("settle".into());
+                    }
+                }
+                let id = format!("s{k}");
+                match r.below(8) {
+                    0..=3 => {
+                        let n = msg_len(r, chunk, buf, maxdata);
+                        l.push(format!("send {id} {sn} p {}", payload(r, n)));
+                        pending_send = Some(id);
+                        sends += 1;
+                    }
+                    4 => {
+                        let n = msg_len(r, chunk, buf, maxdata).min(buf as usize + 2);
+                        l.push(format!("trysend {id} {sn} p {}", payload(r, n)));
+                        sends += 1;
+                    }
+                    5 | 6 => {
+                        let parts = r.range(0, 4);
+                        let ps: Vec<String> = (0..parts)
+                            .map(|_| {
+                                let n = match r.below(4) {
+                                    0 => 0,
+                                    _ => msg_len(r, chunk, buf, maxdata).min(60),
+                                };
+                                payload(r, n)
+                            })
+                            .collect();
+                        let end = *r.pick(&["finish", "final", "drop", "finish"]);
+                        l.push(format!(
+                            "chunks {id} {sn} p {} end={end}",
+                            if ps.is_empty() { "none".to_string() } else { ps.join(",") }
+                        ));
+                        pending_send = Some(id);
+                        sends += 1;
+                    }
+                    _ => {
+                        l.push(format!("pconnect {id} {sn} p n={} wait=1", r.range(1, 4)));
+                        pending_send = Some(id);
+                        sends += 1;
+                    }
+                }
+                l.push("settle".into());
+                l.push(format!("flushstep {rn}"));
+            }
+            // receiver consumes one message
+            _ => {
+                recvs += 1;
+                l.push(format!("recvmsg r{recvs} {rn} p"));
+                l.push("settle".into());
+                l.push(format!("flushstep {rn}"));
+            }
+        }
+    }
+    // drain: the receiver keeps receiving until nothing is left
+    for _ in 0..(sends + 3) {
+        recvs += 1;
+        l.push(format!("recvmsg r{recvs} {rn} p"));
+        l.push("settle".into());
+        l.push(format!("flushstep {rn}"));
+    }
+    if let Some(p) = pending_send.take() {
+        // after the drain the last send must have completed; if it is a huge message still in
+        // progress the receiver drains again
+        let _ = p;
+        for _ in 0..4 {
+            recvs += 1;
+            l.push(format!("recvmsg r{recvs} {rn} p"));
+            l.push("settle".into());
+            l.push(format!("flushstep {rn}"));
+        }
+    }
+    l.push("settle".into());
+    l.push("expect-drained".into());
+    l.push(format!("release {rn} inf"));
+    l.push("dropall".into());
+    l.push("settle".into());
+    l.push("end".into());
+    l
+}
+
+/// Monitor mode: both directions, several ports, bursts of operations without settling,
+/// stalled sinks and delayed deliveries, cancellations at arbitrary quiescent points.  Only the
+/// predicates evaluated on the real trace apply (the replay is not exact here).
+fn link_burst(r: &mut Rng, _i: u64) -> Vec<String> {
+    let c = gen_cfg(r);
+    let mut l = vec!["mode monitor".to_string()];
+    l.extend(cfg_lines(&c));
+    l.push("start".into());
+    let nports = r.range(1, 3);
+    for p in 0..nports {
+        let side = if r.bool() { "A" } else { "B" };
+        let other = if side == "A" { "B" } else { "A" };
+        l.push(format!("connect c{p} {side} p{p}"));
+        l.push(format!("accept a{p} {other} p{p}"));
+        l.push("settle".into());
+    }
+    let mut k = 0;
+    let mut live: Vec<(String, String, u64)> = Vec::new(); // pending send ids: (id, side, port)
+    let mut busy = std::collections::HashSet::new(); // (side, port) with a possibly pending sender call
+    let mut recv_n = 0;
+    let steps = r.range(6, 30);
+    for _ in 0..steps {
+        k += 1;
+        let p = r.below(nports);
+        let s = r.below(2) as usize;
+        let (sn, rn) = if s == 0 { ("A", "B") } else { ("B", "A") };
+        let (chunk, buf, maxdata) = (c.chunk[1 - s], c.buf[1 - s], c.maxdata[1 - s]);
+        match r.below(20) {
+            0..=6 => {
+                if busy.contains(&(s, p)) {
+                    continue;
+                }
+                let id = format!("s{k}");
+                match r.below(6) {
+                    0..=2 => {
+                        let n = msg_len(r, chunk, buf, maxdata);
+                        l.push(format!("send {id} {sn} p{p} {}", payload(r, n)));
+                    }
+                    3 => {
+                        let n = msg_len(r, chunk, buf, maxdata).min(buf as usize + 2);
+                        l.push(format!("trysend {id} {sn} p{p} {}", payload(r, n)));
+                        continue;
+                    }
+                    4 => {
+                        let parts = r.range(0, 3);
+                        let ps: Vec<String> = (0..parts).map(|_| { let n = msg_len(r, chunk, buf, maxdata).min(50); payload(r, n) }).collect();
+                        let end = *r.pick(&["finish", "final", "drop"]);
+                        l.push(format!("chunks {id} {sn} p{p} {} end={end}", if ps.is_empty() { "none".to_string() } else { ps.join(",") }));
+                    }
+                    _ => l.push(format!("pconnect {id} {sn} p{p} n={} wait=1", r.range(1, 3))),
+                }
+                live.push((id, sn.to_string(), p));
+                busy.insert((s, p));
+            }
+            7..=11 => {
+                recv_n += 1;
+                l.push(format!("recvmsg r{recv_n} {rn} p{p}"));
+            }
+            12 | 13 => l.push("settle".into()),
+            14 => {
+                // stall / reopen a sink
+                let w = if r.bool() { "A" } else { "B" };
+                l.push(format!("window {w} {}", if r.bool() { "0" } else { "inf" }));
+            }
+            15 => {
+                let w = if r.bool() { "A" } else { "B" };
+                l.push(format!("release {w} {}", if r.chance(2, 3) { "0" } else { "inf" }));
+            }
+            16 => {
+                let w = if r.bool() { "A" } else { "B" };
+                l.push(format!("addrelease {w} {}", r.range(1, 4)));
+                l.push("settle".into());
+            }
+            _ => {
+                // cancel a send at a quiescent point (wherever it is waiting: credits or queue space)
+                if !live.is_empty() {
+                    let idx = r.below(live.len() as u64) as usize;
+                    let (id, sn, p) = live.remove(idx);
+                    l.push("settle".into());
+                    l.push(format!("cancel {id}"));
+                    l.push("settle".into());
+                    busy.remove(&(if sn == "A" { 0 } else { 1 }, p));
+                }
+            }
+        }
+    }
+    // open everything and drain
+    l.push("window A inf".into());
+    l.push("window B inf".into());
+    l.push("release A inf".into());
+    l.push("release B inf".into());
+    l.push("settle".into());
+    for round in 0..(steps + 4) {
+        for p in 0..nports {
+            for sn in ["A", "B"] {
+                recv_n += 1;
+                l.push(format!("recvmsg r{recv_n} {sn} p{p}"));
+            }
+        }
+        if round % 4 == 3 {
+            l.push("settle".into());
+        }
+    }
+    l.push("settle".into());
+    l.push("expect-drained".into());
+    l.push("dropall".into());
+    l.push("settle".into());
+    l.push("end".into());
+    l
 }
